@@ -75,6 +75,9 @@ def gen_cases(tier, seed):
                 for prm in prm_settings(tier):
                     keys.append(dict(part="frame", fab=fab, reg=reg, vg=vg, vol=vol, prm=prm))
             keys.append(dict(part="twofold", fab=fab, reg=reg, vg=vg, vol="dirichlet", prm=prm_settings(tier)[0]))
+            # ... and with equal stress and deformation exponents (p = n = 2; seed C04i: a
+            # linear-law fast path that drops the absolute value of the slip rate)
+            keys.append(dict(part="twofold", fab=fab, reg=reg, vg=vg, vol="dirichlet", prm="p2n1lam0M0phi0"))
     from props import _hist
 
     keys += _hist.gen_cases_c04(tier)
